@@ -94,7 +94,7 @@ fn gen_dir(ch: &mut Choices, allow_shutdown: bool) -> Dir {
     }
 }
 
-fn gen_case(ch: &mut Choices) -> Case {
+pub fn gen_case(ch: &mut Choices) -> Case {
     let tampered = ch.chance(1, 2);
     let a = gen_dir(ch, true);
     if !tampered {
@@ -223,7 +223,7 @@ async fn handshake(ctx: &ctx::Ctx, a: End, b: End) -> Result<(NoiseStream<End>, 
     Ok((ra.map_err(|e| format!("client handshake: {e:?}"))?, rb.map_err(|e| format!("server handshake: {e:?}"))?))
 }
 
-fn check(case: &Case, st: &mut Stats) -> Result<(), String> {
+pub fn check(case: &Case, st: &mut Stats) -> Result<(), String> {
     det::run(|| async {
         let clock = ctx::ManualClock::new();
         let ctx = ctx::test_root(&clock);
